@@ -22,7 +22,7 @@ MANIFEST = {
 RULE = ("generated class files C<i>.gox: 0..5 (thorough ..10) field specs over int,string,float64,bool,[]int,[]string,map[string]int, multi-name "
         "specs, embedded Base, pointer-embedded *Inner, pointer-embedded package type *strings.Replacer, *Base field, struct tags; optional "
         "import/const/type declarations before the var block, optional later var block (globals), no var block, var block after a function, "
-        "repeated field name, members named like predeclared identifiers (min,len,println,string,nil,...) used bare; 1..4 methods with int/string parameters and results whose bodies read/update fields through bare names and "
+        "repeated field name, members named like predeclared identifiers (min,len,println,string,nil,...) used bare, locals/loop variables/closure and lambda parameters/parameters/named results that shadow fields and methods at every nesting depth; 1..4 methods with int/string parameters and results whose bodies read/update fields through bare names and "
         "through this (random per occurrence), call earlier methods, append/map-set/len, if; main.xgo builds each class with new / keyed "
         "composite literals, calls every method twice and prints all fields; non-trivial = distinct class description")
 
